@@ -201,8 +201,15 @@ func jobC02(c *rt.Ctx) {
 		}
 		s1, e1 := priv.Sign(rec, msg, opts)
 		check("options", s1, e1)
-		s2, e2 := priv.Sign(panicReader{}, msg, opts)
-		check("options", s2, e2)
+		func() {
+			defer func() {
+				if r := recover(); r != nil {
+					c.Violation("C02 entropy-read", fmt.Sprintf("PrivateKey.Sign read from (or panicked with) its entropy argument: %v", r), map[string]interface{}{"seed": ref.Hex(seed), "variant": sv.v.String()})
+				}
+			}()
+			s2, e2 := priv.Sign(panicReader{}, msg, opts)
+			check("options", s2, e2)
+		}()
 		s3, e3 := priv.Sign(nil, msg, opts)
 		check("options", s3, e3)
 		if rec.calls != 0 {
